@@ -16,6 +16,7 @@ the identity-based oracles of specs/namespaces.py:
   <op>.equal-labels-one-taxon    items brought in by label (migrate / read / clone / unify) that
                                  have exactly equal labels sit on one and the same taxon
   <op>.different-labels-different-taxa   no two different labels merged onto one taxon
+  <op>.taxon-not-duplicated      list-wide migrations: nodes that shared one taxon still share one
   <op>.removed-tree-consistent   popped / removed / replaced / cleared trees still have all
                                  their taxa in their own namespace
   <op>.source-untouched          a TreeList that was copied from (extend / + / slice
@@ -376,10 +377,23 @@ def apply_tl(W, op):
             t = cur.new_tree(src)
             W.copied(src, t, N.ns_of(src) is N.ns_of(cur))
             W.loose.append(src)
-    elif name == "migrate":
+    elif name in ("migrate", "migrate-nounify"):
         ns = W.new_ns(op[1])
         W.relist(cur)
-        cur.migrate_taxon_namespace(ns)
+        nodes = [n for t in cur._trees for n in N.tree_nodes(t) if n.taxon is not None]
+        before = [n.taxon for n in nodes]
+        if name == "migrate":
+            cur.migrate_taxon_namespace(ns)
+        else:
+            cur.migrate_taxon_namespace(ns, unify_taxa_by_label=False)
+            for t in cur._trees:
+                W.rec(t).unified = False
+        # items that sat on one taxon still sit on one taxon (nothing duplicated)
+        after = [n.taxon for n in nodes]
+        for i in range(len(nodes)):
+            for k in range(i + 1, len(nodes)):
+                if before[i] is before[k] and after[i] is not after[k]:
+                    return [("taxon-not-duplicated", "two nodes that shared the taxon %r now reference two different taxa" % (before[i].label,))]
     elif name == "reconstruct":
         W.relist(cur)
         cur.reconstruct_taxon_namespace()
@@ -443,7 +457,8 @@ def _history_tl(case):
     for j, op in enumerate(case["ops"]):
         name = op[0]
         try:
-            apply_tl(W, op)
+            for clause, text in (apply_tl(W, op) or ()):
+                fails.append(("%s.%s" % (name, clause), text))
         except Timeout:
             raise
         except Exception as ex:
@@ -934,6 +949,7 @@ def tl_alphabet(cs, small=False):
     for n in ("empty", "overlap", "cs-flip", "own"):
         ops.append(["migrate", n])
         ops.append(["clone", n])
+    ops.append(["migrate-nounify", "empty"])
     ops += [["reconstruct"], ["update_ns"], ["pop", "0"], ["pop", "-1"], ["remove", "0"], ["del", "-1"], ["clear"],
             ["scoped_copy"], ["deepcopy"]]
     return ops
